@@ -24,7 +24,7 @@ members to typed unknowns true of the replaced part.
 import CtyModel.Props.C11
 import CtyModel.Lemmas.CoversWeaken
 import CtyModel.Lemmas.C12Funcs
-import CtyModel.Lemmas.d12bLookup
+import CtyModel.Lemmas.d12bKnown
 namespace CtyModel
 namespace C12
 open Fn Std
@@ -726,6 +726,47 @@ theorem sound_lookup_map_partial (E : Stdlib.Env) (hE : EnvConvertSound E) (om w
     have := D12b.leaf_eq hmwk hmok h2 hck hk2 hleaf
     subst this
     exact D12b.lookup_map_implSound E hE om wm wk od wd hm h1 h3 hmom hmwm hmwk hs hcm hcd
+
+/-! ### clause 3, function by function: wholly known in, wholly known out (through `Call`) -/
+
+/-- `length` (the exception of C01 — the null of the placeholder type — is refused by the parameter) -/
+theorem known_in_known_out_length (c r : Value) (hk : c.whollyKnown = true) (hm : c.containsMarked = false)
+    (hd : c.ty ≠ .dyn)
+    (hr : (callUnrefined Stdlib.lengthSpec Stdlib.lengthType Stdlib.lengthImpl [c]).1 = .ok r) :
+    r.whollyKnown = true ∨ r = Value.unknown .dyn := by
+  rcases known_args_impl_value _ _ _ [c] r (by simpa using hk) (by simpa using hm) hr with h | ⟨rt, _, h⟩
+  · exact Or.inr h
+  · exact Or.inl (length_known_partial c r hk hd h)
+
+/-- `coalescelist` and `keys`: the obligation `ImplKnownOut` of `known_in_known_out` holds of the callbacks -/
+theorem known_in_known_out_coalescelist (args : List Value) (r : Value)
+    (hk : ∀ a ∈ args, a.whollyKnown = true) (hm : ∀ a ∈ args, a.containsMarked = false)
+    (hr : (callUnrefined Stdlib.coalesceListSpec Stdlib.coalesceListType Stdlib.coalesceListImpl args).1 = .ok r) :
+    r.whollyKnown = true ∨ r = Value.unknown .dyn :=
+  known_in_known_out _ _ _ args r D12b.knownOut_coalescelist hk hm hr
+
+theorem known_in_known_out_keys (args : List Value) (r : Value)
+    (hk : ∀ a ∈ args, a.whollyKnown = true) (hm : ∀ a ∈ args, a.containsMarked = false)
+    (hr : (callUnrefined Stdlib.keysSpec Stdlib.keysType Stdlib.keysImpl args).1 = .ok r) :
+    r.whollyKnown = true ∨ r = Value.unknown .dyn :=
+  known_in_known_out _ _ _ args r D12b.knownOut_keys hk hm hr
+
+/-- `reverse`, `values`: every member of the result is a member of the argument -/
+theorem known_in_known_out_reverse_values (E : Stdlib.Env) (v r : Value) (hk : v.whollyKnown = true)
+    (hm : v.containsMarked = false) :
+    ((callUnrefined Stdlib.reverseSpec Stdlib.reverseType (Stdlib.reverseImpl E) [v]).1 = .ok r →
+      r.whollyKnown = true ∨ r = Value.unknown .dyn) ∧
+    ((callUnrefined Stdlib.valuesSpec Stdlib.valuesType (Stdlib.valuesImpl E) [v]).1 = .ok r →
+      r.whollyKnown = true ∨ r = Value.unknown .dyn) := by
+  constructor
+  · intro hr
+    rcases known_args_impl_value _ _ _ [v] r (by simpa using hk) (by simpa using hm) hr with h | ⟨rt, _, h⟩
+    · exact Or.inr h
+    · exact Or.inl (D12b.knownOut_reverse E v r rt hm hk h)
+  · intro hr
+    rcases known_args_impl_value _ _ _ [v] r (by simpa using hk) (by simpa using hm) hr with h | ⟨rt, _, h⟩
+    · exact Or.inr h
+    · exact Or.inl (D12b.knownOut_values E v r rt hm hk h)
 
 /-! ### the hypotheses are satisfiable -/
 
